@@ -411,7 +411,7 @@ the `R`-class -/
 structure SiftEnv2 (P0 P : Mgr → Prop) (R : Mgr → Mgr → Prop) : Prop extends SwapOK P R where
   gc : ∀ m, P0 m → ∃ m', collectGarbage none m = (.ok (), m') ∧ P m' ∧ R m m' ∧
     m'.tbl.vars = m.tbl.vars
-  sched : ∀ m s, P m → P { m with sched := s } ∧ R m { m with sched := s }
+  sched : ∀ m s, P m → (m.sched = [] → s = []) → P { m with sched := s } ∧ R m { m with sched := s }
   size : ∀ m0 m1 m2, P m1 → P m2 → R m0 m1 → R m0 m2 → m1.nvars = m2.nvars →
     (∀ j : Nat, m1.tbl.l2v[j]? = m2.tbl.l2v[j]?) → m1.len = m2.len
 
@@ -530,8 +530,8 @@ theorem applySifting_total {P0 : Mgr → Prop} (E : SiftEnv2 P0 P R) (m : Mgr) (
   unfold applySifting
   rw [M.bind_ok hrun, M.bind_ok (M.get_eq mg)]
   refine OkOrSched.bind (takeSiftOrder_outcome mg) ?_
-  rintro names mb ⟨⟨s, rfl⟩, hlen, hdecl⟩
-  obtain ⟨hPb, hRb⟩ := E.sched mg s hPg
+  rintro names mb ⟨⟨s, rfl, hs0⟩, hlen, hdecl⟩
+  obtain ⟨hPb, hRb⟩ := E.sched mg s hPg hs0
   have hne : ¬ (names.isEmpty = true) := by
     intro he
     have : names = [] := List.isEmpty_iff.mp he
